@@ -195,16 +195,24 @@ def body(run: Run, replay):
     kgrid = [(p / 100, c / 100, n) for p in percents for c in percents for n in sizes if n <= 100]
     if quick:
         kgrid = kgrid[::3]
+    # the defining statements far beyond the tabulated sample sizes, on both sides of 50 % confidence
+    kgrid += [(p / 100, c / 100, n) for p in (25, 90, 99) for c in (10, 50, 95) for n in sizes if n > 1000]
     for p, c, n in kgrid:
         try:
             env = {"p": mp.mpf(p), "c": mp.mpf(c), "n": mp.mpf(n)}
             zp = terms.evm(T["zp"], env, mp)
             k1 = float(stats.ksingle(p, c, n))
             run.case(("ksingle", p, c, n), part="k-factor defining statements")
-            prob = terms.evm(T["onesided"], dict(env, k=mp.mpf(k1), zp=zp, __quadpts=[mp.mpf(max(n - 1, 1)) / 2, mp.mpf(n - 1), 2 * mp.mpf(n - 1) + 10]), mp)
+            nu_ = mp.mpf(max(n - 1, 1))
+            sd_ = mp.sqrt(2 * nu_)
+            qp = [nu_ / 2, nu_, 2 * nu_ + 10] if n <= 100 else [nu_ - 12 * sd_, nu_ - 4 * sd_, nu_, nu_ + 4 * sd_, nu_ + 12 * sd_]
+            prob = terms.evm(T["onesided"], dict(env, k=mp.mpf(k1), zp=zp, __quadpts=qp), mp)
             if abs(prob - c) > 1e-8:
                 run.violation("ksingle(%g, %g, %d) = %.12g: P(mean + k s bounds the %g quantile) = %.12g, not %g" % (p, c, n, k1, p, float(prob), c),
                               {"p": p, "c": c, "n": n}, {"fn": "ksingle"})
+            if n > 1000:
+                run.trace_validated()
+                continue                       # the incomplete-gamma primitive does not converge for 3e6 degrees of freedom
             k2 = float(stats.kdouble(p, c, n))
             run.case(("kdouble", p, c, n), part="k-factor defining statements")
             chi = terms.evm(T["chiroot"], env, mp)
